@@ -222,7 +222,24 @@ def idiom_input_loop(rng):
             (5, 1, 0, None), (0, 1, 0, tail)]
 
 
-IDIOMS = [idiom_backjump_stack, idiom_input_loop, idiom_print, idiom_loop, idiom_read, idiom_fraction, idiom_exit, idiom_multi, idiom_label_return, idiom_stacks]
+def idiom_forward_jump(rng):
+    """a command X that selects heart `a` only on its second visit, after a LATER command Y has recorded
+    `a`: the jump goes forward (prints ABB)"""
+    a, b = rng.sample(range(2, 13), 2)
+    return ([(0, 1, 1, None), (0, 1, 1, None), (0, 1, 5, None),
+             (0, 1, 5, leaf(b)), (1, 1, 9, None),
+             (0, 1, 2, (0, None, (0, leaf(a), None)))] + print_char(65) +
+            [(0, 1, 2, leaf(a)), (1, 1, 9, None)] + print_char(66) +
+            [(0, 1, 5, (0, None, (0, leaf(b), None)))])
+
+
+def idiom_enc_error(rng):
+    """some output, then a value that is not a Unicode scalar value is written"""
+    bad = rng.choice([0xD800, 0xDFFF, 0x110000, 0xDC00])
+    return print_char(rng.choice([72, 0x1F600]), rng.choice([1, 2])) + push_seq(bad) + [(1, 1, rng.choice([1, 2]), None)]
+
+
+IDIOMS = [idiom_backjump_stack, idiom_input_loop, idiom_forward_jump, idiom_enc_error, idiom_print, idiom_loop, idiom_read, idiom_fraction, idiom_exit, idiom_multi, idiom_label_return, idiom_stacks]
 
 
 def rand_cmd(rng, hearts, grammar=True):
